@@ -291,26 +291,24 @@ theorem learns_at_most_existence (cfg : Cfg) (o : Opts) (now : Int) (m m' : Stor
 
 /-! ### Non-vacuity -/
 
-/-- Two stores that differ in the content of a secret record (and in the crown-jewel flag of another one) are
-    indistinguishable for the API's interface, and distinguishable for an internal one. -/
+/-- Two stores that differ in the content, expiry and crown-jewel flag of a secret record are indistinguishable
+    for the API's interface (hypotheses of `learns_at_most_existence`), and distinguishable for an internal one. -/
 example :
-    let sec (s : String) : Rec := { key := "k/secret", md := { secret := true }, fields := [("S", .prim (.str s))] }
-    let pub : Rec := { key := "k/public", fields := [("S", .prim (.str "hello"))] }
-    let m : Store := [sec "password-1", pub]
-    let m' : Store := [{ sec "password-2" with md := { secret := true, crown := true, expires := 99 } }, pub]
+    let m : Store := [{ key := "k/secret", md := { secret := true }, fields := [("S", .prim (.str "password-1"))] },
+                      { key := "k/public", fields := [("S", .prim (.str "hello"))] }]
+    let m' : Store := [{ key := "k/secret", md := { secret := true, crown := true, expires := 99 }, fields := [("S", .prim (.str "password-2"))] },
+                       { key := "k/public", fields := [("S", .prim (.str "hello"))] }]
     lowEq false false 10 m m' ∧ ¬ lowEq false true 10 m m' ∧ m.NodupKeys ∧ m'.NodupKeys := by
-  refine ⟨?_, ?_, by decide, by decide⟩
+  refine ⟨?_, ?_, by simp [Store.NodupKeys], by simp [Store.NodupKeys]⟩
   · intro k
-    by_cases h1 : k = "k/secret"
-    · subst h1; decide
-    · by_cases h2 : k = "k/public"
-      · subst h2; decide
-      · have e1 : ∀ (a b : Rec), a.key = "k/secret" → b.key = "k/public" → Store.get [a, b] k = none := by
-          intro a b ha hb
-          rw [Store.get_cons, Store.get_cons]; simp [ha, hb, Ne.symm h1, Ne.symm h2, Store.get]
-        simp only
-        rw [e1 _ _ rfl rfl, e1 _ _ rfl rfl]; trivial
-  · intro h; have := h "k/secret"; revert this; decide
+    by_cases h1 : "k/secret" = k
+    · subst h1; simp [Store.get, vis, Meta.valid, Meta.permitted]
+    · by_cases h2 : "k/public" = k
+      · subst h2; simp [Store.get, vis, Meta.valid, Meta.permitted]
+      · have e1 : ("k/secret" == k) = false := by simp [h1]
+        have e2 : ("k/public" == k) = false := by simp [h2]
+        simp [Store.get, List.find?, e1, e2, vis]
+  · intro h; have := h "k/secret"; simp [Store.get, vis, Meta.valid, Meta.permitted] at this
 
 /-- A non-privileged interface that hits a secret record through its cache is refused (hypothesis-free instance of
     `outputs_permitted` where the interesting branch is taken). -/
